@@ -39,6 +39,8 @@ def leaf_values(k):
                 (9999999999999962, 10, -326),
                 # a mantissa beyond the float range, the value well inside it
                 (10 ** 400 + 1, 10, -200), (2 ** 2000 + 1, 2, -1995),
+                # large doubles: binary exponents between the decimal (308) and the binary (1023) limit of a double
+                (1, 2, 400), (5, 2, 1000), (-3, 2, 900), (2 ** 53 - 1, 2, 971),
                 # a fractional mantissa (a python float): the same number as with the point moved into the exponent
                 (1.5, 10, 0), (0.25, 10, 3), (-2.5, 10, -1), (1.5, 2, 0), (0.1, 2, 0), (-0.375, 2, 5), (3.0, 10, 2)]
     if k in ('UTF8String',):
